@@ -27,7 +27,7 @@ def plan(tier, seed):
         for r in range(n):
             D = int(rng.integers(2, 9))
             cases.append(dict(lane=lane, D=D, lead=LEADS[int(rng.integers(len(LEADS)))], cond=float(10 ** rng.uniform(0, 6)),
-                              rank=int(rng.integers(1, D + 1)), use_eig=bool(rng.integers(0, 2)), rs=[seed, 12, i]))
+                              rank=int(rng.integers(1, D + 1)), use_eig=bool(rng.integers(0, 2)), structure=STRUCTURES[int(rng.integers(len(STRUCTURES)))], rs=[seed, 12, i]))
             i += 1
     return cases
 
@@ -41,9 +41,29 @@ def quad(w, P):
     return np.einsum('...a,...ab,...b->...', w.conj(), P, w).real
 
 
-def psd_target(rng, D, lead, rank):
+STRUCTURES = ['dense', 'dense', 'dense', 'deadmic', 'diagonal', 'blockdiag', 'sparse']
+
+
+def psd_target(rng, D, lead, rank, structure='dense'):
+    """Hermitian PSD target of the given rank; structured variants have exact zeros (a muted microphone, uncorrelated channels,
+    two uncorrelated channel groups, a steering vector with vanishing entries), so that eigenvectors have exactly zero components."""
     A = gen.cnormal(rng, (*lead, D, rank)) * 10 ** rng.uniform(-2, 2)
-    return np.einsum('...ab,...cb->...ac', A, A.conj())
+    if structure == 'deadmic':
+        A[..., 0 if rng.uniform() < 0.6 else int(rng.integers(D)), :] = 0
+    elif structure == 'sparse':
+        A[..., rng.permutation(D)[:max(1, D // 2)], :] = 0
+        if rng.uniform() < 0.5:
+            A[..., 0, :] = 0
+        if not np.abs(A).sum(-2).all():
+            A[..., D - 1, :] = gen.cnormal(rng, (*lead, rank))
+    P = np.einsum('...ab,...cb->...ac', A, A.conj())
+    if structure == 'diagonal':
+        P = P * np.eye(D)
+    elif structure == 'blockdiag' and D >= 2:
+        h = int(rng.integers(1, D))
+        blk = np.zeros((D, D)); blk[:h, :h] = 1; blk[h:, h:] = 1
+        P = P * blk
+    return P
 
 
 def lam_max(Px, Pn):
@@ -61,7 +81,7 @@ def run_gev(case, R):
     from pb_bss.extraction import beamformer as bf, get_bf_vector
     rng = gen.rng_of(case)
     D, lead = case['D'], tuple(case['lead'])
-    Px = psd_target(rng, D, lead, case['rank'])
+    Px = psd_target(rng, D, lead, case['rank'], case.get('structure', 'dense'))
     Pn = gen.hpd(rng, D, cond=case['cond'], lead=lead, scale=float(10 ** rng.uniform(-2, 2)))
     variant = ['c', 'c', 'colmajor', 'real-target', 'fortran'][case['rs'][-1] % 5]
     if variant == 'colmajor':
@@ -134,7 +154,7 @@ def run_pca(case, R):
     from pb_bss.extraction import get_pca_vector
     rng = gen.rng_of(case)
     D, lead = case['D'], tuple(case['lead'])
-    P = psd_target(rng, D, lead, case['rank']) + 1e-6 * np.eye(D)
+    P = psd_target(rng, D, lead, case['rank'], case.get('structure', 'dense')) + 1e-6 * np.eye(D)
     info = dict(D=D, lead=list(lead), rank=case['rank'])
     lam, V = np.linalg.eigh(P)
     top, lmax = V[..., -1], lam[..., -1]
@@ -169,7 +189,9 @@ def run_rank1(case, R):
     D, lead = case['D'], tuple(case['lead'])
     exact = case['rank'] == 1
     a = gen.cnormal(rng, (*lead, D))
-    P = psd_target(rng, D, lead, case['rank']) if not exact else np.einsum('...a,...b->...ab', a, a.conj()) * 10 ** rng.uniform(-2, 2)
+    if case.get('structure') in ('sparse', 'deadmic'):
+        a[..., 0 if rng.uniform() < 0.6 else int(rng.integers(D))] = 0          # steering vector with an exactly vanishing entry
+    P = psd_target(rng, D, lead, case['rank'], case.get('structure', 'dense')) if not exact else np.einsum('...a,...b->...ab', a, a.conj()) * 10 ** rng.uniform(-2, 2)
     Pn = gen.hpd(rng, D, cond=min(case['cond'], 1e4), lead=lead)
     info = dict(D=D, lead=list(lead), exact_rank_one=exact)
     for which in ('pca', 'pca:trace', 'pca:eigenvalue', 'gev', 'gev:use_eig'):
@@ -226,4 +248,25 @@ def run_ban(case, R):
     v2 = ban(w * c, Pn)
     inv = float(np.abs(v2 - v * (c / abs(c))).max() / np.abs(v).max())
     R.check('C12.ban', inv <= 1e-10, 'ban/magnitude-invariance', f'BAN result depends on the magnitude of its input ({inv:.3e})', **info)
+    # the same clause for the normalisation as the wrapper applies it ('<name>+ban'): the result is the un-normalised vector of that
+    # name times the positive real factor, whatever the scale the core beamformer happens to return (eigh and eig scale differently)
+    from pb_bss.extraction import get_bf_vector
+    Pt = psd_target(rng, D, lead, int(rng.integers(1, D + 1)))
+    for name, kw in (('gev', dict(use_eig=False)), ('gev', dict(use_eig=True)), ('pca', {}), ('mvdr_souden', dict(ref_channel=0))):
+        try:
+            wc = np.asarray(get_bf_vector(name, Pt, Pn, **kw)); vb = np.asarray(get_bf_vector(name + '+ban', Pt, Pn, **kw))
+        except Exception as e:
+            if not instr.is_library_exception(e):
+                raise
+            R.count(f'wrapper {name}+ban raised {type(e).__name__}')
+            continue
+        # the factor itself is checked above on generic vectors; beamforming vectors concentrate on the weak noise directions, where
+        # w^H Phi w cancels and an independently evaluated factor differs by cond * eps - so the factor is taken from the (checked) routine
+        refb = np.asarray(ban(wc, Pn))
+        ok = np.isfinite(refb).all() and np.abs(refb).max() > 0
+        if not ok:
+            continue
+        dvb = float(np.abs(vb - refb).max() / np.abs(refb).max()) if vb.shape == refb.shape else np.inf
+        tag = name + (':use_eig' if kw.get('use_eig') else '')
+        R.check('C12.ban', dvb <= 1e-12, f'ban/wrapper-factor/{tag}', f"get_bf_vector('{name}+ban') is not the '{name}' vector times sqrt(w^H Phi Phi w)/(w^H Phi w) (rel {dvb:.3e})", dev=dvb, **info)
     R.mark_nontrivial('ban', D, list(lead), int(np.log10(case['cond'])))
